@@ -67,6 +67,14 @@ class C02(AttBase):
                                         D.fi(rng.randrange(0x10000), rng.randrange(0x10000))]))
             rng.shuffle(reqs)
             cases += D.chunked(self, "sweep", cfg, rng, info, reqs)
+            # near miss types (every configured uuid, varied in one respect): whole range + ranges from the pool
+            near = []
+            for t in d.near_types:
+                near.append(D.rbt(1, 0xffff, t))
+                for _ in range(1 if not ctx.thorough else 6):
+                    lo, hi = AC.pick_range(rng, info)
+                    near.append(D.rbt(lo, hi, t))
+            cases += D.chunked(self, "near", cfg, rng, info, near)
             # a client that continues behind the last handle
             sessions = []
             for k in range(24 if not ctx.thorough else 200):
